@@ -966,6 +966,7 @@ class Frame:
         self.rets = []
         self.loops = []
         self.base = CTX.guard
+        self.params = set(env)       # names bound to the caller's objects at entry
 
     # -- statements -----------------------------------------------------------------
     def run(self, body):
@@ -1046,7 +1047,26 @@ class Frame:
         if isinstance(st, ast.AugAssign):
             if isinstance(st.target, ast.Name):
                 cur = self.lookup(st.target.id, env)
-                env[st.target.id] = binop(st.op, cur, self.ev(st.value, env))
+                res = binop(st.op, cur, self.ev(st.value, env))
+                if type(cur).__name__ == "SymArray" and type(res).__name__ == "SymArray" and len(res.e) == len(cur.e):
+                    # numpy: an augmented assignment on an array works IN PLACE -- every other name bound to the same
+                    # array (the caller's column!) sees the new values; the dtype of the array does not change
+                    kc = numpy.dtype(cur.dtype).kind if cur.dtype is not None else None
+                    kr = numpy.dtype(res.dtype).kind if res.dtype is not None else None
+                    if kc in ("i", "u", "b") and kr == "f":
+                        CTX.err(True, "UFuncTypeError(cannot cast the float result of an in-place operation to the integer array)")
+                        raise PathEnd()
+                    cur.e = list(res.e)
+                    env[st.target.id] = cur
+                    if st.target.id in getattr(self, "params", ()):
+                        # the array is the caller's: the caller's column is overwritten (arguments are copied at entry
+                        # of the symbolic call, so the effect is recorded here instead of being propagated)
+                        muts = getattr(CTX, "arg_mutations", None)
+                        if muts is None:
+                            muts = CTX.arg_mutations = []
+                        muts.append((getattr(self.fn, "__qualname__", "?"), st.target.id))
+                else:
+                    env[st.target.id] = res
                 return g
             if isinstance(st.target, ast.Subscript):
                 base = self.ev(st.target.value, env)
